@@ -152,6 +152,16 @@ func c14Check(c C14Case) *pbt.Violation {
 			if r.ExistSector(op.X, op.Z) != ok {
 				return pbt.V("c14.exist", "chunks never written report absence", "%s: ExistSector=%v, model %v", step, !ok, ok)
 			}
+		case "slowts":
+			// the next write to the timestamp table takes until the wall clock has reached the next second
+			// (a WriteSector that reads the clock twice then disagrees with itself)
+			armed := true
+			mem.Before = func(off int64, n int) {
+				if armed && off >= 4096 && off < 8192 {
+					armed = false
+					time.Sleep(time.Until(time.Now().Truncate(time.Second).Add(time.Second + 5*time.Millisecond)))
+				}
+			}
 		case "tick":
 			// let the wall clock reach the next second (chunk timestamps have one-second resolution, so
 			// "same timestamp" hides whether a later write refreshed memory and header alike)
@@ -239,7 +249,7 @@ func genRegOps(t *rapid.T, n int, small bool) []RegOp {
 		ops = append(ops, op)
 	}
 	if !small && len(ops) >= 3 && rapid.IntRange(0, 79).Draw(t, "tick") == 41 {
-		ops[rapid.IntRange(1, len(ops)-1).Draw(t, "tick_at")].K = "tick" // at most one per history: it costs up to a second
+		ops[rapid.IntRange(1, len(ops)-1).Draw(t, "tick_at")].K = rapid.SampledFrom([]string{"tick", "slowts"}).Draw(t, "tick_kind") // at most one per history: it costs up to a second
 	}
 	return ops
 }
